@@ -91,9 +91,17 @@ impl builtins::Command for MapFileCommand {
                 // If the user is getting to wraparounds in *bash*, they got bigger problems.
                 #[allow(clippy::cast_possible_wrap)]
                 let elem_idx = elem_idx as i64;
+                let Some(index) = elem_idx.checked_add(origin) else {
+                    writeln!(
+                        context.stderr(),
+                        "{}: {origin}: invalid array origin",
+                        context.command_name
+                    )?;
+                    return Ok(ExecutionExitCode::GeneralError.into());
+                };
                 context.shell.env_mut().update_or_add_array_element(
                     &self.array_var_name,
-                    (elem_idx + origin).to_string(),
+                    index.to_string(),
                     value,
                     |_| Ok(()),
                     env::EnvironmentLookup::Anywhere,
